@@ -1,3 +1,4 @@
+pub mod realbin;
 pub mod runner;
 pub mod sut;
 pub mod tape;
